@@ -1,5 +1,6 @@
 use crate::Args;
 
+pub mod c03r;
 pub mod c04;
 pub mod c05;
 pub mod c08;
@@ -17,6 +18,7 @@ pub mod c17;
 
 pub fn run(args: &Args) -> i32 {
     match args.prop.as_str() {
+        "C03R" => c03r::run(args),
         "C04" => c04::run(args),
         "C05" => c05::run(args),
         "C08" => c08::run(args),
